@@ -724,9 +724,13 @@ def general_module(ch, feat, nfuncs=8, host_funcs=0, with_trace=False, nglobals=
     extra = []
     if recursion == 'locals':
         extra = selfrec_templates(ch, m, nimp + nfuncs)
+        if ch.below(2) == 0:
+            extra += twin_templates(ch, m)
     elif recursion:
         extra = recursion_templates(ch, m, nimp + nfuncs)
         extra += selfrec_templates(ch, m, nimp + nfuncs + len(extra))
+        if ch.below(3) == 0:
+            extra += twin_templates(ch, m)
     nall = nimp + nfuncs + len(extra)
     view = _SigView(m, nimp, sigs, extra)
     # table + element segments
@@ -832,6 +836,28 @@ def recursion_templates(ch, m, base):
                               ('if', I32, [('i32.const', 1)], [('local.get', 0), ('i32.const', 1), ('i32.sub',), ('call', od)])]))
     out.append(Func(ty2, [], [('local.get', 0), ('i32.const', 63), ('i32.and',), ('local.tee', 0), ('i32.eqz',),
                               ('if', I32, [('i32.const', 0)], [('local.get', 0), ('i32.const', 1), ('i32.sub',), ('call', ev)])]))
+    return out
+
+
+def twin_templates(ch, m):
+    """functions whose BODIES ARE BYTE-IDENTICAL but whose signatures differ (the body touches its parameters only through
+    type-agnostic instructions: local.get / set / tee, select, drop, return): whatever a translator shares between equal bodies
+    (hashes, caches, merged output), each function still works on values of its own types"""
+    out = []
+    bodies = ([('local.get', 0)], [('local.get', 0), ('local.get', 1), ('local.get', 2), ('select',)],
+              [('local.get', 1), ('local.set', 0), ('local.get', 0)], [('local.get', 0), ('drop',), ('local.get', 1)],
+              [('local.get', 0), ('local.tee', 1), ('drop',), ('local.get', 1), ('return',)],
+              [('local.get', 1), ('local.get', 0), ('local.get', 2), ('select',), ('local.tee', 0), ('return',)])
+    bi = ch.below(len(bodies))
+    body = bodies[bi]
+    np_ = (1, 3, 2, 2, 2, 3)[bi]
+    types = [I32, I64, F32, F64]
+    for _ in range(2 + ch.below(3)):
+        t = types.pop(ch.below(len(types)))
+        ps = (t,) * np_ if np_ < 3 else (t, t, I32)
+        out.append(Func(m.type_index(ps, (t,)), [], list(body)))
+        if not types:
+            break
     return out
 
 
